@@ -281,9 +281,11 @@ impl Transformer {
                         .add_shadowing_identifier(param, *param_span)?;
                 }
 
-                // Register local variable identifiers before transforming the body,
-                // since the body expression may reference them (where clauses).
+                // Local variables (where clauses) are defined in order: the expression
+                // of each one sees the parameters and the local variables before it, so
+                // a name only shadows a unit from its own definition onwards.
                 for def in &mut *local_variables {
+                    fn_body_transformer.transform_expression(&mut def.expr);
                     fn_body_transformer
                         .variable_names
                         .push(def.identifier.to_compact_string());
@@ -292,13 +294,9 @@ impl Transformer {
                         .add_shadowing_identifier(def.identifier, def.identifier_span)?;
                 }
 
+                // The body expression may reference all of them.
                 if let Some(expr) = body {
                     fn_body_transformer.transform_expression(expr);
-                }
-
-                // Now transform the local variable expressions
-                for def in local_variables {
-                    fn_body_transformer.transform_expression(&mut def.expr);
                 }
             }
             Statement::DefineDimension(_, name, _) => {
